@@ -79,6 +79,8 @@ AtomTable == <<
 Range(s) == {s[i] : i \in DOMAIN s}
 ReqsOf(A) == UNION {Range(AtomTable[a].reqs) : a \in A}
 KeysOf(A) == {AtomTable[a].key : a \in A}
+\* the table is printed once per TLC run so that the orchestrator / driver use the spec's own atoms
+ASSUME PrintT(<<"ATOMS", ToJson(AtomTable)>>)
 OnePerKey(A) == \A a, b \in A : AtomTable[a].key = AtomTable[b].key => a = b
 
 Digits == <<"0", "1", "2", "3", "4", "5", "6">>
